@@ -90,6 +90,14 @@ func verifDateAddSub(sub bool) {
 		lim = verifrt.Bound(35, 1000)
 	}
 	n := verifrt.NondetIntRange("n", -lim, lim)
+	verifrt.Tag("rank", []string{"year", "month", "day"}[c.rank])
+	verifrt.Tag("unitName", verifDateUnits[ui])
+	// is the unit finer than the value's precision? (year 0, month 1, week/day 2)
+	finer := "no"
+	if []int{0, 0, 1, 1, 2, 2, 2, 2}[ui] > c.rank {
+		finer = "yes"
+	}
+	verifrt.Tag("unitFinerThanPrecision", finer)
 	var got Date
 	var err error
 	if sub {
@@ -161,6 +169,13 @@ func verifDateTimeAddSub(sub bool) {
 	}
 	n := verifrt.NondetIntRange("n", -verifrt.Bound(13, 25), verifrt.Bound(13, 25))
 	q := verifQty(n, units[ui])
+	verifrt.Tag("rank", []string{"year", "month", "day", "hour", "minute", "second", "millisecond"}[c.rank])
+	verifrt.Tag("unitName", units[ui])
+	finer := "no"
+	if []int{0, 0, 1, 1, 2, 2, 2, 2, 3, 3, 4, 4, 5, 5, 6}[ui] > c.rank {
+		finer = "yes"
+	}
+	verifrt.Tag("unitFinerThanPrecision", finer)
 	var got DateTime
 	var err error
 	if sub {
